@@ -436,6 +436,10 @@ MessageQueue_hasUnconfirmedIMessages(MessageQueue self)
 {
     bool retVal = false;
 
+#if (CONFIG_USE_SEMAPHORES == 1)
+    Semaphore_wait(self->queueLock);
+#endif
+
     if (self->entryCounter != 0)
     {
         uint8_t* entryPtr = self->firstEntry;
@@ -462,6 +466,10 @@ MessageQueue_hasUnconfirmedIMessages(MessageQueue self)
                 entryPtr = entryPtr + sizeof(struct sMessageQueueEntryInfo) + entryInfo.size;
         }
     }
+
+#if (CONFIG_USE_SEMAPHORES == 1)
+    Semaphore_post(self->queueLock);
+#endif
 
     return retVal;
 }
